@@ -49,6 +49,16 @@ def R(M, me, h, h2, owned=OWNED):
     )
 
 
+def sub_tier_at_bound(M, t):
+    """some tier i >= 1 of t is >= max_loop_iterations (number of weak hops in this time step)"""
+    a = M.alg
+    if a.small:
+        return False
+    # (index shifted by one, like `tiers[1:]`, so that the solver matches the guard's own quantifier)
+    j = z3.Int(f"j!{next(MS._q)}")
+    return z3.Exists([j], And(0 <= j, j < a.tlen(t) - 1, a.tier(t, j + 1) >= M.max_loop))
+
+
 def begin_assertions(M, hd, me, lazy):
     """the property statements at BEGIN(me, t), t = the step just popped"""
     a, h = M.alg, H(hd)
@@ -69,6 +79,8 @@ def begin_assertions(M, hd, me, lazy):
         # C16: a simulator whose async requests I must wait for is not in a step earlier than mine
         "C16_async_partner": a.forall_sims(lambda b: Implies(And(M.SWd(me, b), h.CSd[b]),
                                                              a.le(a.plus(t, M.SWv(me, b)), h.CSv[b]))),
+        # C09: a step begins only while every sub-step tier is below the bound
+        "C09_below_bound": Not(sub_tier_at_bound(M, t)),
     }
     out.update({"inv_" + k: f(M, h) for k, f in INV_PARTS.items()})
     return out
@@ -141,7 +153,7 @@ class GetOutputsLoops(_Loops):
 # ------------------------------------------------------------------ L2 base
 class _L2(SC._Sched):
     """a coroutine of the scheduler: requires at the call, ensures at the return, cut rules inside"""
-    property_ids = ["C01", "C02", "C05", "C10", "C16"]
+    property_ids = ["C01", "C02", "C05", "C09", "C10", "C13", "C16"]
     configure = "configure"
     configure_small = "configure_small"
     changes_owned = []     # owned fields this coroutine may change
@@ -218,10 +230,29 @@ class _L2(SC._Sched):
 
     propagates_connection_error = True
 
+    def site_condition(self, site, e):
+        """the exact condition under which the SimulationError of this site is raised (C13, C09);
+        None = not specified by this contract (then the site is merely allowed)"""
+        return None
+
+    @staticmethod
+    def names_simulator(e):
+        """the error message mentions the simulator id"""
+        for a_ in e.args_:
+            for mnt in getattr(a_, "mentions", ()):
+                if ".sid" in mnt:
+                    return True
+        return False
+
     def raise_allowed(self, A, e):
         site = (e.site or "").split("[")[0]
         if e.cls == "SimulationError" and site in ALLOWED_SITES:
-            return True
+            if e.implicit == "contract":
+                return True       # raised by a callee under ITS contract (checked there)
+            c = self.site_condition(site, e)
+            if c is None:
+                return True
+            return And(c, self.names_simulator(e))
         if e.cls == "ConnectionError" and self.propagates_connection_error and e.implicit in ("external call", "contract"):
             return True   # the simulator closed its connection: passed on to sim_process (which maps it, C14)
         return None   # every other exception site must be unreachable
@@ -376,10 +407,56 @@ class Step(_L2):
         }
         if TOP[0] is self:
             # C02 (b), completeness: a valid returned time before `until` IS scheduled, as (r, 0, .., 0)
-            r = self._p.ghost.get("step_reply")
-            if r is not None:
+            g = self._p.ghost
+            kind, r = g.get("step_reply_kind"), g.get("step_reply")
+            if kind == "int":
                 out["C02_self_step_scheduled"] = Implies(r < M.until, h["NS"][me][a.plus(a.mkT1(r), M.fwt(me))] > 0)
+            # C13: a reply is accepted only if it is valid for this simulator
+            out["C13_reply_accepted_only_if_valid"] = {
+                "none": M.typ(me) != 0, "int": (r > a.time(hc["CSv"][me])) if kind == "int" else True,
+                "other": False}.get(kind, True)
         return out
+
+    def site_condition(self, site, e):
+        M, h = self._M, self.cur()
+        a, me = M.alg, self._me
+        g = self._p.ghost
+        kind, r = g.get("step_reply_kind"), g.get("step_reply")
+        if site == "step:raise#0":
+            return kind == "other"
+        if site == "step:raise#1":
+            return And(kind == "int", r <= a.time(h["CSv"][me])) if kind == "int" else False
+        if site == "step:raise#2":
+            return And(kind == "none", M.typ(me) == 0)
+        return None
+
+    def raise_post(self, A, e):
+        """C13: an API-violating reply has no effect: nothing is scheduled after it"""
+        h, rs = self.cur(), self._p.ghost["region_start"]
+        if e.cls != "SimulationError":
+            return True
+        return And(h["NS"] == rs["NS"], h["P"] == rs["P"])
+
+    def model_values(self, m, ob=None):
+        d = super().model_values(m, ob)
+        from pyvc.discharge import model_value
+        g = ob.ghost if ob is not None and ob.ghost else {}
+        if "sims" in d and g.get("step_reply_kind"):
+            me = d["sims"][d["sim"]]
+            d["native_case"] = {"current_step": [me["CS"] if me["CS"] is not None else 0], "type": me["type"], "until": d["until"],
+                                "reply_kind": g["step_reply_kind"], "next_self_step": me.get("NSS"),
+                                "reply": model_value(m, g["step_reply"]) if g.get("step_reply_kind") == "int" else None}
+        return d
+
+    def native_call(self, m):
+        from contracts import scheduler_native as N
+        return N.replay_step(m)
+
+    def native_search(self, budget):
+        for cs in ([2], [2, 1]):
+            for typ in ("time-based", "event-based", "hybrid"):
+                for kind, reply in (("none", None), ("int", 1), ("int", 2), ("int", 3), ("int", 9), ("other", 2.5), ("other", "3")):
+                    yield {"native_case": {"current_step": cs, "type": typ, "until": 5, "reply_kind": kind, "reply": reply}}
 
     def justify_demand(self, it, dest, x):
         """C02 (b), soundness: the only step demanded by step() is the returned time, if it is
@@ -423,18 +500,48 @@ class GetOutputs(_L2):
             # sub-step tiers are reset when time advances (C09 'time then advances normally', C02)
             exact = Or(ot == t, And(a.time(ot) != a.time(t),
                                     z3.ForAll([i], Implies(And(1 <= i, i < a.tlen(ot)), a.tier(ot, i) == 0))))
-        return {
+        out = {
             "next_steps_only_grow": a.forall_times(lambda x: h["NS"][me][x] >= hc["NS"][me][x]),
             "output_time_valid": Implies(M.out_req(me), And(a.tlen(ot) == a.depth(me), a.t_nonneg(ot), a.le(t, ot))),
             "output_time_exact": Implies(M.out_req(me), exact),
         }
+        if TOP[0] is self:
+            od = self._p.ghost.get("out_reply")
+            if od is not None:
+                # C13: a reply whose output time lies before the step time is never accepted
+                out["C13_past_output_time_rejected"] = Not(And(od.has_time, od.time < a.time(t)))
+        return out
 
     def loop_local(self, M, h):
         return {}
 
+    def site_condition(self, site, e):
+        M, h = self._M, self.cur()
+        a, me = M.alg, self._me
+        od = self._p.ghost.get("out_reply")
+        if site == "get_outputs:raise#0" and od is not None:
+            return And(od.has_time, od.time < a.time(h["LS"][me]))
+        return None
+
+    def raise_post(self, A, e):
+        """C13: an output time in the past is rejected before anything is cached or pushed"""
+        if e.cls != "SimulationError":
+            return True
+        return len(self._p.ghost.get("events", [])) == 0
+
     def native_call(self, m):
         from contracts import scheduler_native as N
         return N.replay_get_outputs(m)
+
+    def model_values(self, m, ob=None):
+        d = super().model_values(m, ob)
+        from pyvc.discharge import model_value
+        od = ob.ghost.get("out_reply") if ob is not None and ob.ghost else None
+        if od is not None and "sims" in d:
+            has = model_value(m, od.has_time)
+            d["native_case"] = {"current_step": [d["sims"][d["sim"]]["LS"]],
+                                "reply_time": model_value(m, od.time) if has is True else None}
+        return d
 
     def native_search(self, budget):
         for cs in ([2], [2, 0], [2, 1], [2, 3, 1]):
@@ -513,6 +620,14 @@ class SimProcess(_L2):
         out.pop("owned_unchanged")
         out.pop("progress_monotone_since_call")   # sim_process has no caller that needs it (G covers every region)
         return out
+
+    def site_condition(self, site, e):
+        """C09: the guard fires exactly when some sub-step tier of the step has reached the bound"""
+        M, h = self._M, self.cur()
+        a, me = M.alg, self._me
+        if site == "sim_process:raise#1":
+            return sub_tier_at_bound(M, h["CSv"][me])
+        return None
 
 
 class SimProcessWhole(SimProcess):
